@@ -266,6 +266,52 @@ def file_goal_case(gi, fmt, res):
                               f"{case} goal lanelets {ref}: point {p} at t={t}: is_reached={got}, expected {exp}", dict(case, point=list(p), t=t))
 
 
+FILE_SHAPES = [("rect", 4.0, 2.0, 1.0, 1.0, math.pi / 4), ("rect", 6.0, 1.0, 0.5, 1.0, -1.2), ("rect", 3.0, 1.5, -2.0, 2.0, 0), ("circle", 2.5, 1.0, 0.5),
+               ("poly", [[-1.0, -1.0], [3.0, -1.0], [3.0, 1.0], [1.0, 1.0], [1.0, 3.0], [-1.0, 3.0]]),
+               ("group", [("rect", 2.0, 2.0, -1.0, 0.0, 0.3), ("rect", 1.0, 3.0, 2.5, 2.5, 1.0)])]
+
+
+def file_shape_goal_case(si, fmt, res):
+    """a goal position given as a shape, written and read back: the goal region that was READ must accept exactly the points of the shape"""
+    import os, tempfile
+    from mc import spec, roundtrip
+    sh = FILE_SHAPES[si]
+    listify = lambda x: [listify(y) for y in x] if isinstance(x, (list, tuple)) else x
+    sp = spec.minimal()
+    sp["pps"] = [spec.pp(100, goal_states=[spec.goal_state(t=(2, 5), position=listify(sh))], x=0.0, y=1.0)]
+    case = {"k": "file-shape-goal", "shape": si, "fmt": fmt}
+    d = tempfile.mkdtemp(prefix="c08_")
+    try:
+        sc, pps = spec.build(sp)
+        fn = os.path.join(d, "g." + fmt)
+        roundtrip.write(sc, pps, fmt, fn, precision=6)
+        _, pps2 = roundtrip.read(fmt, fn)
+        goal = list(pps2.planning_problem_dict.values())[0].goal
+    except Exception as e:
+        res.violation(f"C08|file-goal:{fmt}|build-write-read|raises:{type(e).__name__}", repr(e), case)
+        return
+    finally:
+        import shutil
+        shutil.rmtree(d, ignore_errors=True)
+    for p in grid_points() + probe_points(sh):
+        res.evals += 1; res.transitions += 1
+        exp = shape_contains(sh, p)
+        try:
+            got = goal.is_reached(mk_state(dict(BASE_S, pos=p, t=3)))
+        except Exception as e:
+            res.violation(f"C08|file-goal:{fmt}|is_reached|raises:{type(e).__name__}", f"{case} p={p}: {e!r}", dict(case, point=list(p)))
+            return
+        if exp is None:
+            res.guarded += 1
+            continue
+        res.nontrivial += 1
+        res.outcomes[f"file-goal:reached={bool(got)}"] += 1
+        if bool(got) != exp:
+            res.violation(f"C08|file-goal:{fmt}|position:{sh[0]}|{'wrong-accept' if got else 'wrong-reject'}",
+                          f"{case} goal shape {sh}: point {p}: is_reached={got}, expected {exp}", dict(case, point=list(p)))
+            return
+
+
 # --------------------------------------------------------------------------- spaces
 
 ORI_STARTS = [-TWO_PI, -math.pi - 0.3, -math.pi / 2, -0.2, 0.0, 1.0, math.pi - 0.2]
@@ -360,6 +406,9 @@ def units(tier):
     for gi in range(len(FILE_GOALS)):
         for fmt in ("xml", "pb"):
             u.append({"k": "file-goal", "goal": gi, "fmt": fmt})
+    for si in range(len(FILE_SHAPES)):
+        for fmt in ("xml", "pb"):
+            u.append({"k": "file-shape-goal", "shape": si, "fmt": fmt})
     return u
 
 
@@ -416,6 +465,10 @@ def run_unit(unit, tier):
                 check_case([dict(BASE_G, pos=sh)], dict(BASE_S, cls=cls, pos=p), res, "position:" + sh[0], lan)
         res.states += 1
         res.sample({"k": "pos", "shape": sh}, 1)
+    elif k == "file-shape-goal":
+        file_shape_goal_case(unit["shape"], unit["fmt"], res)
+        res.states += 1
+        res.sample(dict(unit, goal_shape=FILE_SHAPES[unit["shape"]]), 1)
     elif k == "file-goal":
         file_goal_case(unit["goal"], unit["fmt"], res)
         res.states += 1
@@ -539,6 +592,8 @@ def replay(case):
         check_case(gs, s, res, case["tag"], lan)
     elif case["k"] == "file-goal":
         file_goal_case(case["goal"], case["fmt"], res)
+    elif case["k"] == "file-shape-goal":
+        file_shape_goal_case(case["shape"], case["fmt"], res)
     else:
         _reached(res)
     return [(s, d) for s, d, _ in res.violations]
